@@ -321,6 +321,10 @@ class _:
         kw = {}
         if align: kw = {'align': True, 'sort': sort}
         D = da()
+        if isinstance(as_dict, list):
+            # a dict inserted in the order `as_dict` (a permutation of the inputs) + keys= giving the order of the result
+            d = {py_label(keys[i]): ins[i] for i in as_dict}
+            return D.stack(d, axis=name, keys=[py_label(k) for k in keys], **kw)
         if as_dict:
             return D.stack({py_label(k): x for k, x in zip(keys, ins)}, axis=name, **kw)
         return D.stack(list(ins), axis=name, keys=None if keys is None else [py_label(k) for k in keys], **kw)
